@@ -1,6 +1,7 @@
 import Hs.Model.Vx
 import Hs.Model.Ns
 import Hs.Model.NsAssoc
+import Hs.Model.NsProtos
 /-
   Driver glue for C13.  Requests (tokens after `C13`); `G` = `<nrows> {<def|-> <nis> {<item|->}*}*`, names
   are hex strings, name lists are count-prefixed:
@@ -19,6 +20,11 @@ import Hs.Model.NsAssoc
                                         per query 1 | 0 | !<outcome>, joined by ;
     ent GX <ko> order.. <kr> {<ntags> {<tag> <0|1>}*}*
                                         per record the entity type's def name or `-`, joined by ;
+
+  Part 3 (Hs.Model.NsProtos); `PD` = `<n> {<key> <token>}*`:
+    protos G <npd> {<name> <0|1 children usable> <nc> PD* <nf> f..}* <np> PD*
+                                        per parent the set of prototypes, each `{key:token,..}` with keys sorted,
+                                        the set sorted and joined by |; parents joined by ;
 -/
 namespace Hs.Drv.C13
 open Hs Hs.Vx Hs.Ns
@@ -250,6 +256,42 @@ def entReq (ts : List String) : String :=
           | e => "!" ++ e.tag))
 end
 
+def pPD : P NsA.PDict := fun ts => do
+  let (k, ts) ← pNat ts
+  pRep (fun ts => do
+    let (n, ts) ← pH ts
+    let (v, ts) ← pNat ts
+    pure ((n, v), ts)) k ts
+
+def pChildSpec : P (Name × NsA.ChildSpec) := fun ts => do
+  let (n, ts) ← pH ts
+  let (usable, ts) ← pNat ts
+  let (nc, ts) ← pNat ts
+  let (cs, ts) ← pRep pPD nc ts
+  let (fl, ts) ← pNames ts
+  pure ((n, { children := if usable != 0 then some cs else none, flatten := fl }), ts)
+
+def showPD (d : NsA.PDict) : String :=
+  let d := d.mergeSort (fun a b => nameLe a.1 b.1)
+  "{" ++ ",".intercalate (d.map (fun kv => H kv.1 ++ ":" ++ toString kv.2)) ++ "}"
+
+def protosReq (ts : List String) : String :=
+  match pRows ts with
+  | none => "bad-request"
+  | some (rows, ts) =>
+    match (do let (n, ts) ← pNat ts; pRep pChildSpec n ts : Option (List (Name × NsA.ChildSpec) × List String)) with
+    | none => "bad-request"
+    | some (pd, ts) =>
+      match (do let (n, ts) ← pNat ts; pRep pPD n ts : Option (List NsA.PDict × List String)) with
+      | none => "bad-request"
+      | some (parents, _) =>
+        let ns := make rows
+        let fuel := fuelFor ns.defs
+        "ok " ++ ";".intercalate (parents.map (fun parent =>
+          let ps := (NsA.protos fuel ns pd parent).map showPD
+          let ps := (ps.mergeSort (fun a b => decide (a ≤ b))).eraseDups
+          "|".intercalate ps))
+
 /-- requests `C13 <cmd> ...` (tokens after the property id) -/
 def handle (ts : List String) : String :=
   match ts with
@@ -259,6 +301,7 @@ def handle (ts : List String) : String :=
     else if cmd = "assoc" then assocReq rest
     else if cmd = "rel" then relReq rest
     else if cmd = "ent" then entReq rest
+    else if cmd = "protos" then protosReq rest
     else "bad-request"
   | [] => "bad-request"
 
